@@ -270,7 +270,7 @@ func (x *FnExec) contractCall(c *Contract, sig *types.Signature, key string, arg
 	if c.Trusted {
 		x.trustedUsed[shortKey(c.Key)] = true
 	}
-	if (c.Mode == "bv") != x.bv {
+	if (c.Mode == "bv") != x.bv && !c.Extern {
 		if x.bv {
 			unsupp("call from bv-mode function into int-mode contract %s", c.Key)
 		}
@@ -322,8 +322,14 @@ func (x *FnExec) contractCall(c *Contract, sig *types.Signature, key string, arg
 	default:
 		res = x.freshVal("ret."+shortName(key), rt)
 	}
+	// the callee may allocate: references it hands back (results, havocked locations) are below the new counter
+	na := tc.Fresh("ALLOC", x.refSort())
+	x.addFact(x.intLe(frozen.alloc, na))
+	x.allocBound(na)
+	st.alloc = na
 	if c.ModAll {
 		x.havocAll(st)
+		x.addFact(x.intLe(na, st.alloc))
 	} else {
 		mev := &SpecEnv{x: x, vars: map[string]TV{}, cur: frozen, old: frozen, c: c, pkgPath: c.Pkg}
 		for k, v := range env {
@@ -335,9 +341,6 @@ func (x *FnExec) contractCall(c *Contract, sig *types.Signature, key string, arg
 			x.havocLoc(mev, m.E, frozen, st)
 		}
 	}
-	na := tc.Fresh("ALLOC", x.refSort())
-	x.addFact(x.intLe(frozen.alloc, na))
-	st.alloc = na
 	pev := &SpecEnv{x: x, vars: env, cur: st, old: frozen, c: c, pkgPath: c.Pkg}
 	switch rt.Len() {
 	case 1:
